@@ -8,10 +8,12 @@ DEDUCTIVE = [{"module": "rnapolis.common", "sidecar": "contracts.common_c",
               "targets": ["BpSeq.sequence", "BpSeq.__stems_entries", "BpSeq.__regions", "lemma:strands_apart",
                           "DotBracket.__post_init__", "DotBracket.__post_init__@painted", "DotBracket.from_string",
                           "DotBracket.from_string@painted", "BpSeq.__make_dot_bracket", "BpSeq.fcfs"]}]
-TRUSTED = ["z3 5.1.0 / cvc5 1.0.3", "pyvc encoding of Python semantics (DESIGN 2.3)", "CPython 3.12"]
+TRUSTED = ["z3 5.1.0 / cvc5 1.0.3", "pyvc encoding of Python semantics (DESIGN 2.3)", "CPython 3.12",
+           "Lean 4.33.0 + Mathlib v4.33.0 (lean/Definitional.lean, plain `lean`, standard axioms only)"]
+EXTRA_KIND = "Lean 4 + Mathlib: existence and uniqueness of the definitional functions FC / levels30 (lean/Definitional.lean, ~5 s; both tiers)"
 ASSUMPTIONS = [
     "Entry.sequence is one character (field declared `char` in the sidecar): BPSEQ sequences are one letter per entry",
-    "FC (first-come-first-served level function) and levels30 ('needs at most 30 levels', the property's quantifier) are introduced by characteristic properties (definitional lemmas FC_definition / levels30_definition), not proved to exist by SMT",
+    "FC / taken (first-come-first-served level function) and levels30 ('needs at most 30 levels', the property's quantifier) are introduced by characteristic properties (definitional lemmas FC_definition / levels30_definition of contracts/common_c.py) that the SMT engine assumes; that functions with exactly these properties EXIST for every stem list (the axioms are consistent) and are UNIQUE on the stems 0..len(R)-1 (least level not used by an earlier crossing stem, by strong recursion: the axiom is a definition) is proved in Lean 4 + Mathlib - lean/Definitional.lean: FC_definition_consistent, FC_definition_unique, FC_is_fc, levels30_definition_consistent (model in which levels30(self) holds exactly when all FCFS levels are < 30: the precondition of BpSeq.fcfs is not vacuous). Still a reading (lean/README.md, section Definitional.lean): that the Lean predicate FCdef is FC_def(R) clause by clause, and the discipline 'FC_definition is instantiated for ONE stem list per verification condition' (FC / taken carry no argument R; two different stem lists can be contradictory: theorem FC_definition_one_R_per_context) - BpSeq.fcfs instantiates it once, for its own `regions`",
     "composition across calls (the stems seen by fcfs are the stems seen by __regions) relies on cached_property: one evaluation per object",
     "the MILP encoder (dot_bracket / convert_to_dot_bracket) and all_dot_brackets reach __make_dot_bracket through their own contracts (C13/C02, C16); where those are not proved the members are covered by the bounded part only",
 ]
@@ -27,6 +29,13 @@ EXPLANATION = (
     "Lemma strands_apart (strands of different stems of a valid structure are disjoint intervals) is proved by SMT with explicit witnesses. "
     "Bounded (stand-in, not counted as proved): optimal / all-dot-brackets members end to end, the converse direction (dot-bracket -> BPSEQ -> dot-bracket) "
     "and BpSeq.from_string/__str__ on enumerated pairings and random knotted structures.")
+
+
+def deductive_extra(tier, seed):
+    from props.C12 import lean_file_records
+    return lean_file_records("/verif/lean/Definitional.lean", "Definitional",
+                             ["FC_definition_consistent", "FC_definition_unique", "FC_is_fc", "levels30_definition_consistent",
+                              "levels30_bound_independent_of_model", "FC_definition_one_R_per_context"], tier)
 
 
 def knotted(p):
@@ -67,11 +76,47 @@ def bounded(tier, seed):
     out.append(run_cases("converse", conv, O.c01_converse, lambda s: any(c not in "()." for c in s),
                          "balanced dot-bracket strings (random proper painting over 30 bracket types) -> BPSEQ -> dot-bracket",
                          f"{len(conv)} strings", sig=str, relates="from_dotbracket|DotBracket"))
+    # BPSEQ text (observe_at: BpSeq.from_string / __str__): every three-column line is one entry, whatever the residue symbol is
+    texts = []
+    for k, p in enumerate(rnd[:30] + [q for q in pairings_upto(6) if any(q)][::5]):
+        alphabet = ["ACGU", "ACGUacgu", "ACGUN?", "AC-GU.", "ACGU*_~", "?"][k % 6]
+        texts.append((tuple(p), "".join(rng.choice(alphabet) for _ in p), k % 4))
+    out.append(run_cases("bpseq-text", texts, bpseq_text_check, lambda c: any(ch not in "ACGU" for ch in c[1]),
+                         "BPSEQ text -> BpSeq.from_string -> entries / str() / dot-bracket: one entry per three-column line in file order (index, symbol, partner) for "
+                         "symbols outside ACGU as well ('?' gap markers, lower case, '-', '.', '*'), different column separators and blank lines; the text written "
+                         "back parses to the same entries; the dot-bracket has the text's sequence and length",
+                         f"{len(texts)} texts", sig=repr, relates="from_string|BpSeq"))
     return out
+
+
+def bpseq_text_check(case):
+    from rnapolis.common import BpSeq
+    p, seq, style = case
+    sep = [" ", "\t", "   ", " \t "][style]
+    lines = [f"{i + 1}{sep}{seq[i]}{sep}{p[i]}" + (" " if style == 2 else "") for i in range(len(p))]
+    text = ("\n\n" if style == 3 else "\n").join(lines) + ("\n" if style != 1 else "")
+    b = BpSeq.from_string(text)
+    got = [(e.index_, e.sequence, e.pair) for e in b.entries]
+    want = [(i + 1, seq[i], p[i]) for i in range(len(p))]
+    if got != want:
+        return [f"from_string: {len(got)} entries {got[:4]}.. instead of {len(want)} {want[:4]}.."]
+    again = BpSeq.from_string(str(b))
+    if [(e.index_, e.sequence, e.pair) for e in again.entries] != want:
+        return ["from_string(str(b)) differs from b"]
+    errs = []
+    for name, d in (("fcfs", b.fcfs), ("dot_bracket", b.dot_bracket)):
+        if d.sequence != seq or len(d.structure) != len(p):
+            errs.append(f"{name}: sequence {d.sequence!r} / length {len(d.structure)} instead of {seq!r} / {len(p)}")
+        elif sorted((i + 1, j + 1) for i, j in d.pairs) != sorted((i + 1, j) for i, j in enumerate(p) if j > i + 1):
+            errs.append(f"{name}: decodes to other pairs than the text holds")
+    return errs
 
 
 def replay(inp):
     case = inp["case"]
+    if inp["check"] == "bpseq-text":
+        errs = bpseq_text_check((tuple(case[0]), case[1], case[2]))
+        return {"fails": bool(errs), "errors": errs[:3]}
     if inp["check"] == "converse":
         errs = O.c01_converse(case)
     else:
